@@ -1,10 +1,11 @@
+#include "vw_defs.h"
 #include "dict.h"
-uint32_t G_K;
+uint32_t H_KEY;
 void harness(void)
 {
-    CO_DICT *cod; uint32_t key;
-    CO_OBJ *r = CODictFind(cod, key);
+    vw_dict_alloc();
+    CO_OBJ *r = CODictFind(&V_NODE.Dict, H_KEY);
     __CPROVER_assert(0, "REACH:post");
     if (r != NULL) { __CPROVER_assert(0, "REACH:found"); }
-    else if (DEV(key) != 0) { __CPROVER_assert(0, "REACH:notfound"); }
+    else if (DEV(H_KEY) != 0 && G_DNUM > 3) { __CPROVER_assert(0, "REACH:notfound"); }
 }
